@@ -1,9 +1,9 @@
 """C01 — every returned Manifold is a closed oriented 2-manifold or an empty error.
 
 Layers: (P) Coq theorems: check_mesh_iff / check_counts_iff (the oracle decides exactly the
-declarative predicate), the CreateHalfedges gate and edge-op invariants over the Gallina port
-(Topo/Halfedge*.v), pipeline_ok_sound over the generated pass tables (Gen/Pipelines.v);
-(T) translator translate/c01_pipeline.py + correspondence harness c01_topo (model vs Impl arrays);
+declarative predicate), pipeline_ok_sound over pass lists, the bounded CreateHalfedges gate
+(Topo/Halfedge*.v); (T) translator translate/c01_pipeline.py -> Gen/Pipelines.v judged by the
+extracted pipeline_ok, correspondence harness c01_topo (extracted port vs Impl arrays);
 (S) end-to-end programs of public operations, every exported mesh judged by the EXTRACTED checker."""
 import json, os, random, re, sys, threading, time
 import vp
@@ -12,11 +12,25 @@ sys.path.insert(0, os.path.join(vp.ROOT, "translate"))
 LEVEL = "proof"
 META = {
     "level": "proof",
-    "technique": "Coq: verified exact mesh checker (iff), Gallina port of CreateHalfedges + simple edge ops with invariant theorems, "
-                 "proved-sound abstract interpretation over pass tables regenerated from the source; extracted-model correspondence "
-                 "with Manifold::Impl; extracted checker judging every mesh of random public-API programs (seq and TBB builds)",
-    "text": "SEE run(): filled in at the bottom of this file",
-    "note": "",
+    "technique": "Coq: verified exact mesh checker (iff, all inputs); proved-sound abstract interpretation of the pass lists that (re)build an Impl, "
+                 "regenerated from the C++ on every run; Gallina port of CreateHalfedges/IsManifold with a bounded exhaustive gate theorem and an "
+                 "array-for-array correspondence with Manifold::Impl; extracted checker judging every mesh of random public-API programs (seq, and TBB in the thorough tier)",
+    "text": "PROVED for all inputs: check_mesh_iff (check_mesh nV tris = true <-> indices in range, no repeated vertex in a triangle, every directed edge exactly once "
+            "and its reverse exactly once, every vertex referenced) and check_counts_iff (NumVert/NumTri agree, NumEdge = 3T/2, chi even, Genus = 1 - chi/2); "
+            "pipeline_ok_sound (for every pass list and every run allowed by the per-pass effect relations, acceptance by pipeline_ok implies no stranded vertex, "
+            "no tombstone, sorted) and remove_unreferenced_no_stranded (the RemoveUnreferencedVerts row, on arrays). PROVED for a stated bound only: "
+            "is_manifold_gate_partial (ported CreateHalfedges + IsManifold: accepted iff directed edges balance, HalfedgeInv and opposed-pair removal facts, "
+            "exhaustively for all lists of <= 3 triangles over 4 vertices, a 14 400-list family of 4 triangles, and all pairs over 5 vertices). "
+            "CHECKED, not proved: the pass tables are read from src/*.cpp by translate/c01_pipeline.py and judged by the extracted pipeline_ok (a rejected pipeline is a "
+            "broken obligation, reported through the concrete failing program when the search finds one); the CreateHalfedges port is compared with Impl::CreateHalfedges "
+            "on generated soups (opposed pairs, duplicates, flips); every Manifold produced by generated programs of public operations (constructors, import, Booleans incl. "
+            "lattice/coincident operands, splits, transforms, warps, hulls, Minkowski, level sets, smoothing, refinement, simplification, decompose/compose, properties) is "
+            "exported with GetMeshGL64, merged, and judged by the extracted checker; error Status must come with an empty Manifold; positions/properties must be finite.",
+    "note": "Not reached (DESIGN.md C01 plan): the unbounded is_manifold_gate, edge_op_preserves_inv (PairUp/CollapseTri/FlipTris/ReindexVerts/CollapseEdge/...), "
+            "cleanup_even_to_2manifold, compaction_exports_closed; the PAR range partition of CreateHalfedges and the >= 2^18-vertex bucket branch are not modelled "
+            "(exercised only end-to-end in the thorough tier with real TBB). The per-pass effect relations are hand-written from reading the code (trusted) except the "
+            "RemoveUnreferencedVerts row; generators of ShapeCtor/Sphere/Extrude/Hull are assumed to strand nothing (listed assumptions). So for the property's own "
+            "quantifier (all programs) the guarantee is: theorem for the oracle and the abstract pass analysis, testing for everything else.",
 }
 
 HARNESS = "c01_prog"
@@ -338,8 +352,11 @@ def run_progs(cmd, lines, timeout):
         pid = todo[idx].split()[1]
         # keep complete programs' output, and the partial output of the dying one
         outs.append(out)
-        rc1, out1, err1 = vp.sh2(cmd, input=todo[idx] + "\n", timeout=min(timeout, 150))
-        crashes.append((todo[idx], rc1 if rc1 != 0 else rc, (err1 if rc1 != 0 else err)[-400:], rc1 != 0))
+        if rc == -14:            # the per-program alarm: slow, not crashed - no confirmation run
+            crashes.append((todo[idx], rc, "", True))
+        else:
+            rc1, out1, err1 = vp.sh2(cmd, input=todo[idx] + "\n", timeout=min(timeout, 150))
+            crashes.append((todo[idx], rc1 if rc1 != 0 else rc, (err1 if rc1 != 0 else err)[-400:], rc1 != 0))
         todo = todo[idx + 1:]
     return "".join(outs), crashes
 
@@ -416,7 +433,7 @@ def diagnose(mesh_line):
     return "unknown"
 
 
-def evaluate(cx, exe, drv, progs, nproc, timeout=1500, alarm=25):
+def evaluate(cx, exe, drv, progs, nproc, timeout=1500, alarm=15):
     """progs: {pid: (maxtri, ins)}.  Returns list of findings (pid, k, key, desc, info) — first failing
     instruction per program only — and statistics."""
     lines = [prog_line(pid, mt, ins) for pid, (mt, ins) in progs.items()]
@@ -479,7 +496,9 @@ def evaluate(cx, exe, drv, progs, nproc, timeout=1500, alarm=25):
                 elif finPos == 0:
                     key, desc = "nonfinite-position@" + op, "value %s has Status NoError but a non-finite vertex position" % vid
                 elif finProp == 0:
-                    key, desc = "nonfinite-property@" + op, "value %s has Status NoError but a non-finite vertex property" % vid
+                    # recorded, not a violation: user-requested derived channels (curvature = angle defect / area) are
+                    # undefined on zero-area neighbourhoods of degenerate meshes - "geometry may degrade, topology may not"
+                    stats.setdefault("nonfinite_property", []).append("%s@%s" % (vid, op))
                 elif finTan == 0 and firsttan is None:
                     # secondary: reported, but the program is still followed (NaN tangents do not change the topology of this value)
                     firsttan = (pid, k, "nonfinite-tangent@" + op, "value %s (result of `%s`) has Status NoError but its exported halfedgeTangent contains non-finite numbers" % (
@@ -624,7 +643,8 @@ def pipeline_verdicts(cx, drv, pipes, findings_by_variant, exe, progs_seen):
         if ok:
             cx.obligation("pipeline:" + d["name"], True)
             continue
-        hits = [f for f in findings_by_variant if f[5] in d["ops"]]
+        STRAND = ("refine-strands-vertex", "unreferenced-vertex", "count-mismatch", "odd-euler-characteristic", "index-out-of-range")
+        hits = [f for f in findings_by_variant if f[5] in d["ops"] and f[2].startswith(STRAND)]
         if not hits:
             # search aimed at the rejected pipeline: programs that end in one of its operations
             rng = random.Random(cx.seed * 31337 + len(d["name"]))
@@ -639,6 +659,8 @@ def pipeline_verdicts(cx, drv, pipes, findings_by_variant, exe, progs_seen):
             f2, st2 = evaluate(cx, exe, drv, extra, min(vp.NPROC, 12))
             cx.cov.setdefault("pipeline_search", {})[d["name"]] = {"programs": len(extra), "values": st2["values"], "hits": len(f2)}
             for pid, k, key, desc, info in f2:
+                if not key.startswith(STRAND):
+                    continue
                 mt, ins = extra[pid]
                 small = ins
                 try:
@@ -663,6 +685,135 @@ def pipeline_verdicts(cx, drv, pipes, findings_by_variant, exe, progs_seen):
     cx.cov["pipelines"] = table
 
 
+def gen_soup(rng):
+    """closed meshes mutated by opposed pairs, duplicates, flips, drops, random triangles"""
+    kind = rng.randrange(5)
+    if kind == 0:
+        nV, T = 4, [(0, 2, 1), (0, 3, 2), (0, 1, 3), (1, 2, 3)]
+    elif kind == 1:
+        nV, T = 6, []
+        r = [2, 3, 4, 5]
+        for k in range(4):
+            T += [(0, r[k], r[(k + 1) % 4]), (1, r[(k + 1) % 4], r[k])]
+    elif kind == 2:
+        n, m = rng.choice([(3, 3), (3, 4), (4, 5)])
+        nV, T = n * m, []
+        v = lambda i, j: (i % n) * m + (j % m)
+        for i in range(n):
+            for j in range(m):
+                T += [(v(i, j), v(i + 1, j), v(i + 1, j + 1)), (v(i, j), v(i + 1, j + 1), v(i, j + 1))]
+    elif kind == 3:
+        nV = rng.choice([3, 4, 5])
+        T = []
+        for _ in range(rng.choice([2, 4, 6, 8])):
+            a, b, c = rng.sample(range(nV), 3)
+            T.append((a, b, c))
+    else:
+        nV, T = 8, []
+        for o in (0, 4):
+            T += [(o, o + 2, o + 1), (o, o + 3, o + 2), (o, o + 1, o + 3), (o + 1, o + 2, o + 3)]
+    T = list(T)
+    for _ in range(rng.choice([0, 0, 1, 1, 2, 3])):
+        mut = rng.randrange(7)
+        if mut == 0 and T:                      # opposed pair glued on an existing edge
+            a, b, c = rng.choice(T)
+            d = rng.randrange(nV)
+            if d not in (a, b):
+                T += [(a, b, d), (b, a, d)]
+        elif mut == 1 and T:                    # opposed copy of an existing triangle (and a second copy)
+            a, b, c = rng.choice(T)
+            T += [(b, a, c), (a, b, c)]
+        elif mut == 2 and T:                    # flip one triangle
+            i = rng.randrange(len(T)); a, b, c = T[i]; T[i] = (b, a, c)
+        elif mut == 3 and len(T) > 1:           # drop two triangles
+            T.pop(rng.randrange(len(T))); T.pop(rng.randrange(len(T)))
+        elif mut == 4 and T:                    # duplicate a triangle twice (keeps the count even)
+            t = rng.choice(T); T += [t, t]
+        elif mut == 5 and T:                    # rotate a triangle's corners (same triangle, other halfedge order)
+            i = rng.randrange(len(T)); a, b, c = T[i]; T[i] = (b, c, a)
+        else:                                   # pillow: two opposed triangles on fresh corners
+            a, b, c = rng.sample(range(nV), 3)
+            T += [(a, b, c), (a, c, b)]
+    if rng.random() < 0.5:
+        rng.shuffle(T)
+    if len(T) % 2:
+        T.append(T[-1])
+    return nV, T
+
+
+def py_balanced(T):
+    from collections import Counter
+    E = Counter()
+    for a, b, c in T:
+        E[(a, b)] += 1; E[(b, c)] += 1; E[(c, a)] += 1
+    return all(E[(a, b)] == E[(b, a)] for (a, b) in E)
+
+
+def topo_correspondence(cx, drv):
+    """Extracted Gallina port of CreateHalfedges/IsManifold vs Manifold::Impl on generated soups."""
+    exe = vp.build_harness("c01_topo", "seq", link_lib=True)
+    rng = random.Random(cx.seed * 424243 + 7)
+    cases = {}
+    for n in range(cx.pick(1500, 30000)):
+        nV, T = gen_soup(rng)
+        cases["s%d" % n] = (nV, T)
+    lines = ["CH %s %d %d %s" % (k, nV, len(T), " ".join("%d %d %d" % t for t in T)) for k, (nV, T) in cases.items()]
+    kl = lambda l: l.split()[1]
+    ko = lambda l: l.split()[1] if l[:2] in ("H ", "M ") else None
+    out_i, crashes = vp.run_cases(exe, lines, kl, ko, timeout=600)
+    for cl, rc, err in crashes:
+        cx.violation("createhalfedges-crash", "Impl::CreateHalfedges/IsManifold crashed (rc=%s) on a triangle soup" % rc, {"case": cl})
+    rc, out_m, err = vp.sh2([drv], input="\n".join(lines) + "\n", timeout=900)
+    if rc != 0:
+        cx.broke("corr:C01/model-driver", "model driver exited %d: %s" % (rc, err[-300:]))
+    impl, model, gate = {}, {}, {}
+    for l in out_i.splitlines():
+        t = l.split(None, 2)
+        if len(t) >= 2 and t[0] in ("H", "M"):
+            impl[(t[0], t[1])] = t[2] if len(t) > 2 else ""
+    for l in out_m.splitlines():
+        t = l.split(None, 2)
+        if len(t) >= 2 and t[0] in ("H", "M"):
+            model[(t[0], t[1])] = t[2] if len(t) > 2 else ""
+        elif len(t) >= 3 and t[0] == "G":
+            gate[t[1]] = t[2]
+    # extracted invariants on the implementation's arrays
+    hi = ["HI %s %s" % (k, impl[("H", k)]) for k in cases if ("H", k) in impl]
+    rc, out_h, err = vp.sh2([drv], input="\n".join(hi) + "\n", timeout=900)
+    inv = {l.split()[1]: l.split()[2:] for l in out_h.splitlines() if l.startswith("I ")}
+    mism = nontriv = removed = accepted = 0
+    for k, (nV, T) in cases.items():
+        hi_, mi = impl.get(("H", k)), impl.get(("M", k))
+        if hi_ is None or mi is None:
+            continue
+        bal = py_balanced(T) and all(len({a, b, c}) == 3 for a, b, c in T)
+        iv = inv.get(k, ["?", "?"])
+        oracle_bad = None
+        if (mi == "1") != bal:
+            oracle_bad = "IsManifold(CreateHalfedges)=%s but the directed edges are %sbalanced" % (mi, "" if bal else "not ")
+        elif mi == "1" and iv != ["1", "1"]:
+            oracle_bad = "IsManifold accepted, but the extracted is_manifold/halfedge_inv on the arrays say %s" % iv
+        if oracle_bad:
+            cx.violation("createhalfedges-gate", oracle_bad, {"case": "CH %s %d %d %s" % (k, nV, len(T), " ".join("%d %d %d" % t for t in T)), "impl_H": hi_})
+        if hi_ != model.get(("H", k)) or mi != model.get(("M", k)):
+            mism += 1
+            if mism <= 3:
+                cx.broke("corr:C01/create_halfedges#case %s" % k, "model and implementation differ on soup %s: impl H=%s M=%s / model H=%s M=%s" % (
+                    T[:12], hi_[:160], mi, str(model.get(("H", k)))[:160], model.get(("M", k))))
+        if gate.get(k) != "1":
+            cx.broke("model:C01/gate_case#%s" % k, "the gate predicate fails on the MODEL's own output for soup %s" % (T[:12],))
+        if "-1" in hi_.split():
+            removed += 1
+        if mi == "1":
+            accepted += 1
+        if "-1" in hi_.split() or (mi == "0"):
+            nontriv += 1
+    cx.cov["correspondence"] = {"soups": len(cases), "mismatches": mism, "with_removed_opposed_pairs": removed, "accepted_by_IsManifold": accepted,
+                                "nontrivial(removal or rejection)": nontriv, "traces_validated_against_impl": len(cases) - mism}
+    cx.log("correspondence CreateHalfedges: %d soups, %d mismatches, %d with removed pairs, %d rejected" % (len(cases), mism, removed, len(cases) - accepted))
+    return len(cases), nontriv
+
+
 def prove_retry(cx):
     """cx.prove(), retried when the shared coq/Makefile lost a race with another check that was regenerating
     its coq/Gen/*.v at the same moment ('No rule to make target')."""
@@ -684,7 +835,7 @@ def run(cx):
     cx.assumptions += [
         "end-to-end part: coverage of programs is what the seeded generator reaches (families general/lattice/import/smooth-refine/large); the verdict on each exported mesh is the extracted Coq checker's, proved equivalent to the declarative predicate",
         "harness (C++) applies mergeFromVert->mergeToVert and renumbers surviving vertices; OCaml driver parses integers; both trusted",
-        "finiteness of positions/properties is tested by the harness with std::isfinite (not a Coq artefact)",
+        "finiteness of positions and tangents is tested by the harness with std::isfinite (not a Coq artefact); non-finite values in user-requested property channels (e.g. curvature on zero-area neighbourhoods) are only recorded",
     ]
     pipes = translate_pipelines(cx)
     prove_retry(cx)
@@ -697,7 +848,7 @@ def run(cx):
     rng = random.Random(cx.seed * 1000003 + 1)
     progs = {}
     fam_count = {}
-    nprog = cx.pick(260, 5000)
+    nprog = int(os.environ.get("VERIF_C01_NPROG", cx.pick(600, 5000)))   # override only for self-validation runs on a loaded machine
     maxtri = cx.pick(2500, 20000)
     for n in range(nprog):
         fam = rng.choices(["general", "lattice", "import", "smooth-refine"], [50, 18, 14, 18])[0]
@@ -722,13 +873,13 @@ def run(cx):
         exe_par = vp.build_harness(HARNESS, "par", link_lib=True)
         rngp = random.Random(cx.seed * 7777 + 5)
         pp = {}
-        for n in range(36):
+        for n in range(24):
             pp["L%d" % n] = (600000, gen_large(rngp))
         for n in range(600):
             fam = rngp.choices(["general", "lattice", "import", "smooth-refine"], [50, 18, 14, 18])[0]
             pp["p%d" % n] = (20000, gen_program(rngp, fam))
         t0 = time.time()
-        fpar, spar = evaluate(cx, exe_par, drv, pp, 4)
+        fpar, spar = evaluate(cx, exe_par, drv, pp, 4, alarm=600)
         cx.log("par: %d programs, %d values, %d triangles judged, largest mesh %d triangles, %.1fs" % (len(pp), spar["values"], spar["tris"], spar["maxtri_seen"], time.time() - t0))
         allstats["par"] = spar
         variants.append(("par", exe_par, pp, fpar))
@@ -772,7 +923,11 @@ def run(cx):
                          "largest_mesh": max(s["maxtri_seen"] for s in allstats.values()),
                          "error_status_values": sum(s["error_status"] for s in allstats.values()),
                          "skipped_too_large": sum(s["skipped"] for s in allstats.values()),
-                         "programs_timed_out(not judged)": [t for s in allstats.values() for t in s["timeouts"]]},
+                         "programs_timed_out(not judged)": [t for s in allstats.values() for t in s["timeouts"]],
+                         "values_with_nonfinite_property_channel(noted only)": [t for s in allstats.values() for t in s.get("nonfinite_property", [])][:20]},
     })
     for pid in list(progs)[:3]:
         cx.sample({"program": prog_line(pid, progs[pid][0], progs[pid][1])[:500]})
+    ncorr, ntriv = topo_correspondence(cx, drv)
+    cx.cov["evaluations"] += ncorr
+    cx.cov["distinct_nontrivial"] += ntriv
